@@ -197,3 +197,16 @@ func RenderTable(routes []rm.Route) string {
 	}
 	return "[" + strings.Join(parts, ", ") + "]"
 }
+
+// AttemptRejected performs a registration that is expected to be rejected (it panics) on this very Mux, the way a
+// program does that recovers from the panic and carries on: it must not change how the routes that were registered
+// successfully are served. Returns false if the registration did not panic after all.
+func (t *Table) AttemptRejected(pattern, method string) (panicked bool) {
+	defer func() {
+		if recover() != nil {
+			panicked = true
+		}
+	}()
+	t.Mux.Handle(pattern, method, func(*httpd.Store) {})
+	return false
+}
